@@ -94,3 +94,139 @@ def replay_harness(bindir, rp):
         if r.get("violation"):
             out.append((r["violation"]["class"], r["violation"]["detail"]))
     return out
+
+
+# ================================================================================================
+# C15: awaitable map
+
+
+def run_cmap(bindir, seed, start, count, replay=None, timeout=600):
+    with Scratch("c15") as sc:
+        run = {"seed": seed, "start": start, "count": count, "out": sc.path("out.jsonl")}
+        if replay is not None:
+            run["replay"] = replay
+        os.makedirs(sc.path("home"))
+        rf = sc.path("run.json")
+        with open(rf, "w") as f:
+            json.dump(run, f)
+        env = simlib.base_env(sc.path("home"))
+        env["VERIF_RUN"] = rf
+        p = subprocess.run([os.path.join(bindir, "cmap.test"), "-test.run", "^TestVerifCmap$", "-test.timeout", "0"], cwd=sc.root, env=env,
+                           stdin=subprocess.DEVNULL, stdout=subprocess.PIPE, stderr=subprocess.PIPE, timeout=timeout)
+        results = []
+        try:
+            with open(sc.path("out.jsonl")) as f:
+                results = [json.loads(l) for l in f if l.strip()]
+        except OSError:
+            pass
+        if p.returncode != 0 or len(results) < count:
+            raise Infra("cmap harness exited %d with %d/%d results\n%s" % (p.returncode, len(results), count, p.stderr[-3000:].decode("utf8", "replace")))
+        lc = subprocess.run([os.path.join(simlib.BUILD_ROOT, "linchk"), sc.path("out.jsonl")], stdout=subprocess.PIPE, stderr=subprocess.PIPE, timeout=timeout)
+        if lc.returncode != 0:
+            raise Infra("linchk failed: %s" % lc.stderr[-2000:].decode("utf8", "replace"))
+        verdicts = {}
+        for l in lc.stdout.decode().splitlines():
+            if l.strip():
+                v = json.loads(l)
+                verdicts[v["index"]] = v
+        return results, verdicts
+
+
+def collect_c15(results, verdicts):
+    r = CaseResult()
+    r.stats = {"linearizability_ok": 0, "linearizability_unknown": 0, "sched_steps": 0, "errmap_scenarios": 0, "ops_checked": 0, "waiters_released": 0}
+    for res in results:
+        r.evals += 1
+        v = verdicts.get(res["index"], {"result": "unknown"})
+        r.stats["sched_steps"] += res["stats"].get("sched_steps", 0)
+        r.stats["ops_checked"] += v.get("ops", 0)
+        r.stats["waiters_released"] += sum(1 for e in res["history"] if e["kind"] == "woken" and e["ret"] >= 0)
+        if res["params"]["errmap"]:
+            r.stats["errmap_scenarios"] += 1
+        if v["result"] == "ok":
+            r.stats["linearizability_ok"] += 1
+        elif v["result"] == "unknown":
+            r.stats["linearizability_unknown"] += 1
+        if res.get("overlaps", 0) >= 2:
+            import hashlib
+            r.sigs.append(hashlib.sha256(json.dumps(res["history"], sort_keys=True).encode()).hexdigest()[:16])
+        if r.sample is None:
+            r.sample = {"shards": res["params"]["shards"], "clients": res["params"]["clients"], "history_len": len(res["history"])}
+        viol = res.get("violation")
+        if not viol and v["result"] == "illegal":
+            viol = {"class": "not-linearizable", "detail": v.get("detail", "") + "; history: " + json.dumps([[e["client"], e["kind"], e["key"], e["val"], e["out"], e["outb"], e["wait"], e["call"], e["ret"]] for e in res["history"]])}
+        if viol and not r.violations:
+            rp = {"engine": "schedsim+porcupine", "scenario_seed": res["seed"], "scenario_index": res["index"], "replay": res["params"]}
+            r.violations.append(Violation(viol["class"], viol["detail"], rp))
+    return r
+
+
+def case_c15(bindir, seed, index, tier, extra):
+    n = 120 if tier == "quick" else 400
+    results, verdicts = run_cmap(bindir, seed, 0, n)
+    return collect_c15(results, verdicts)
+
+
+def replay_c15(bindir, rp):
+    results, verdicts = run_cmap(bindir, rp["scenario_seed"], rp["scenario_index"], 1, replay=rp["replay"])
+    r = collect_c15(results, verdicts)
+    return [(v.cls, v.detail) for v in r.violations]
+
+
+# ================================================================================================
+# C27: coverage aggregation order
+
+
+def run_core(bindir, seed, start, count, replay=None, timeout=600):
+    with Scratch("c27") as sc:
+        run = {"seed": seed, "start": start, "count": count, "out": sc.path("out.jsonl")}
+        if replay is not None:
+            run["replay"] = replay
+        os.makedirs(sc.path("home"))
+        os.makedirs(sc.path("w"))
+        with open(sc.path("w", ".plzconfig"), "w") as f:
+            f.write("[please]\nselfupdate = false\n")
+        rf = sc.path("run.json")
+        with open(rf, "w") as f:
+            json.dump(run, f)
+        env = simlib.base_env(sc.path("home"))
+        env["VERIF_RUN"] = rf
+        p = subprocess.run([os.path.join(bindir, "core.test"), "-test.run", "^TestVerifCore$", "-test.timeout", "0"], cwd=sc.path("w"), env=env,
+                           stdin=subprocess.DEVNULL, stdout=subprocess.PIPE, stderr=subprocess.PIPE, timeout=timeout)
+        results = []
+        try:
+            with open(sc.path("out.jsonl")) as f:
+                results = [json.loads(l) for l in f if l.strip()]
+        except OSError:
+            pass
+        if p.returncode != 0 or len(results) < count:
+            raise Infra("core harness exited %d with %d/%d results\n%s" % (p.returncode, len(results), count, p.stderr[-3000:].decode("utf8", "replace")))
+        return results
+
+
+def collect_c27(results):
+    r = CaseResult()
+    r.stats = {"sched_steps": 0, "duplicate_deliveries": 0}
+    for res in results:
+        r.evals += res["evals"]
+        r.stats["sched_steps"] += res["stats"].get("sched_steps", 0)
+        if res["params"]["dup"] >= 0:
+            r.stats["duplicate_deliveries"] += 1
+        if len(res["params"]["tests"]) >= 2:
+            for o in res["distinct"]:
+                r.sigs.append("%d/%s" % (res["seed"], o))
+        if r.sample is None:
+            r.sample = {"tests": res["params"]["tests"], "orders_seen": res["distinct"]}
+        v = res.get("violation")
+        if v and not r.violations:
+            r.violations.append(Violation(v["class"], v["detail"], {"engine": "schedsim", "scenario_seed": res["seed"], "scenario_index": res["index"], "replay": res["params"]}))
+    return r
+
+
+def case_c27(bindir, seed, index, tier, extra):
+    return collect_c27(run_core(bindir, seed, 0, 40 if tier == "quick" else 150))
+
+
+def replay_c27(bindir, rp):
+    r = collect_c27(run_core(bindir, rp["scenario_seed"], rp["scenario_index"], 1, replay=rp["replay"]))
+    return [(v.cls, v.detail) for v in r.violations]
